@@ -13,6 +13,7 @@
   Only `theorem` declarations here; helper lemmas and the satisfiability examples are in Proofs/Ties.lean.
 -/
 import BioCantor.Proofs.Ties
+set_option autoImplicit false   -- an unresolved name in a statement must be an error, never a bound variable
 namespace BioCantor.Props.C01Ties
 open BioCantor BioCantor.GenP BioCantor.Proofs.Ties
 
